@@ -75,10 +75,24 @@ namespace awkward {
     }
   }
 
+  int64_t checked_buffersize(int64_t buffersize, int64_t minimum) {
+    if (buffersize < minimum) {
+      throw std::invalid_argument(
+        std::string("buffersize must be at least ") + std::to_string(minimum)
+        + FILENAME(__LINE__));
+    }
+    return buffersize;
+  }
+
   class ToJsonString::Impl {
   public:
     Impl(int64_t maxdecimals): buffer_(), writer_(buffer_) {
-      if (maxdecimals >= 0) {
+      if (maxdecimals == 0  ||  maxdecimals > 324) {
+        throw std::invalid_argument(
+          std::string("maxdecimals must be negative (full precision) or between 1 and 324")
+          + FILENAME(__LINE__));
+      }
+      if (maxdecimals >= 1) {
         writer_.SetMaxDecimalPlaces((int)maxdecimals);
       }
     }
@@ -231,7 +245,12 @@ namespace awkward {
   ToJsonPrettyString::Impl {
   public:
     Impl(int64_t maxdecimals): buffer_(), writer_(buffer_) {
-      if (maxdecimals >= 0) {
+      if (maxdecimals == 0  ||  maxdecimals > 324) {
+        throw std::invalid_argument(
+          std::string("maxdecimals must be negative (full precision) or between 1 and 324")
+          + FILENAME(__LINE__));
+      }
+      if (maxdecimals >= 1) {
         writer_.SetMaxDecimalPlaces((int)maxdecimals);
       }
     }
@@ -383,12 +402,17 @@ namespace awkward {
   class ToJsonFile::Impl {
   public:
     Impl(FILE* destination, int64_t maxdecimals, int64_t buffersize)
-        : buffer_(kernel::malloc<char>(kernel::lib::cpu, buffersize))
+        : buffer_(kernel::malloc<char>(kernel::lib::cpu, checked_buffersize(buffersize, 1)))
         , stream_(destination,
                   buffer_.get(),
                   ((size_t)buffersize)*sizeof(char))
         , writer_(stream_) {
-      if (maxdecimals >= 0) {
+      if (maxdecimals == 0  ||  maxdecimals > 324) {
+        throw std::invalid_argument(
+          std::string("maxdecimals must be negative (full precision) or between 1 and 324")
+          + FILENAME(__LINE__));
+      }
+      if (maxdecimals >= 1) {
         writer_.SetMaxDecimalPlaces((int)maxdecimals);
       }
     }
@@ -535,12 +559,17 @@ namespace awkward {
   class ToJsonPrettyFile::Impl {
   public:
     Impl(FILE* destination, int64_t maxdecimals, int64_t buffersize)
-        : buffer_(kernel::malloc<char>(kernel::lib::cpu, buffersize))
+        : buffer_(kernel::malloc<char>(kernel::lib::cpu, checked_buffersize(buffersize, 1)))
         , stream_(destination,
                   buffer_.get(),
                   ((size_t)buffersize)*sizeof(char))
         , writer_(stream_) {
-      if (maxdecimals >= 0) {
+      if (maxdecimals == 0  ||  maxdecimals > 324) {
+        throw std::invalid_argument(
+          std::string("maxdecimals must be negative (full precision) or between 1 and 324")
+          + FILENAME(__LINE__));
+      }
+      if (maxdecimals >= 1) {
         writer_.SetMaxDecimalPlaces((int)maxdecimals);
       }
     }
@@ -695,6 +724,7 @@ namespace awkward {
             const char* infinity_string,
             const char* minus_infinity_string)
         : builder_(options)
+        , depth_(0)
         , moved_(false)
         , nan_string_(nan_string)
         , infinity_string_(infinity_string)
@@ -773,8 +803,17 @@ namespace awkward {
       }
     }
 
+    void
+    deeper() {
+      if (++depth_ > 10000) {
+        throw std::invalid_argument(
+          std::string("JSON is nested more than 10000 levels deep") + FILENAME(__LINE__));
+      }
+    }
+
     bool
     StartArray() {
+      deeper();
       moved_ = true;
       builder_.beginlist();
       return true;
@@ -782,6 +821,7 @@ namespace awkward {
 
     bool
     EndArray(rj::SizeType numfields) {
+      depth_--;
       moved_ = true;
       builder_.endlist();
       return true;
@@ -789,6 +829,7 @@ namespace awkward {
 
     bool
     StartObject() {
+      deeper();
       moved_ = true;
       builder_.beginrecord();
       return true;
@@ -796,6 +837,7 @@ namespace awkward {
 
     bool
     EndObject(rj::SizeType numfields) {
+      depth_--;
       moved_ = true;
       builder_.endrecord();
       return true;
@@ -814,6 +856,7 @@ namespace awkward {
 
   private:
     ArrayBuilder builder_;
+    int64_t depth_;
     bool moved_;
     const char* nan_string_;
     const char* infinity_string_;
@@ -886,7 +929,7 @@ namespace awkward {
                const char* infinity_string,
                const char* minus_infinity_string) {
     rj::Reader reader;
-    std::shared_ptr<char> buffer = kernel::malloc<char>(kernel::lib::cpu, buffersize);
+    std::shared_ptr<char> buffer = kernel::malloc<char>(kernel::lib::cpu, checked_buffersize(buffersize, 4));
     rj::FileReadStream stream(source,
                               buffer.get(),
                               ((size_t)buffersize)*sizeof(char));
